@@ -57,6 +57,10 @@ CHECKS = {
                 technique="explicit-state BFS over annotate/rename/rewire/resize/clone/round-trip/(un)register histories on a real IRv11 model, annotation invariant + library checker + serialised references in every state",
                 text="From a 4-node model (a body node capturing outer values, values of known and unknown rank, two registered configurations) every history of shard (all axis/num_shards/device/stage forms on every node input/output and on a foreign value), set_pipeline_stage, replace_input_with, resize_inputs/outputs, replace_all_uses_with, rename, add/remove_device_configuration(cascade), Model.clone (shallow/deep) and an IRv11 serde round trip is executed up to depth 3 (quick: third level below two annotating calls and restricted to edit/clone/round-trip calls); the model is serialised between calls. In every state: every spec targets a current input/output of its node and a registered configuration, no negative stage / out-of-range or repeated axis / <1 shard is recorded, the library's own device-configuration check reports nothing, serialised tensor_name/configuration_id use current names; invalid requests (reference decision) must raise and raising requests must leave the snapshot unchanged.",
                 note="shard/set_pipeline_stage only receive registered configurations; remove always cascades."),
+    "C03": dict(level="model_checking", engine="E1-edit", design="4/C03",
+                technique="enumeration of IR model states reachable by construction and edit histories (catalogue models x every single catalogue edit, shadowing renames, C01-alphabet world states to depth 2, one model per tensor implementation); serialise twice, snapshot before/after, structural isomorphism after the round trip",
+                text="Every ONNX-expressible state is serialised twice (byte-equal protos), its complete public snapshot is compared before/after serialisation (only initializer tensors' own names may change), and from_proto(to_proto(m)) is compared with m through a canonical structural form (node order, operator ids, connectivity incl. shared/captured/shadowing values, names, types, shapes and denotations, attributes incl. nested graphs and tensors by bytes, docs, metadata, quantization annotations, functions, opset imports, device configurations incl. identity with the model's registered configurations).",
+                note="States ONNX cannot express are excluded and counted; IR-only state (analysis meta, Node.version, frozen flags, ''/None) is not compared; documented deserialiser normalisations (initializer values always typed/shaped, trailing unnamed outputs trimmed) are applied to both sides."),
 }
 
 NOT_YET = {}
@@ -102,7 +106,7 @@ def main():
              "kind_free_text": "small-scope exhaustive input/structure enumeration with independent reference oracles"},
             {"name": "E5-fsfault", "path": "mc/fsfault.py", "serves_properties": ["C08"],
              "kind_free_text": "file-system effect interception + exhaustive fault/crash/torn-write plans"},
-            {"name": "E1-edit", "path": "mc/props/c13.py", "serves_properties": ["C13"],
+            {"name": "E1-edit", "path": "mc/props/c13.py", "serves_properties": ["C03", "C13"],
              "kind_free_text": "state x single-edit enumeration with snapshot comparison"},
             {"name": "E4-sched", "path": "mc/sched.py", "serves_properties": ["C09"],
              "kind_free_text": "cooperative baton scheduler for real threads + stateless DFS with delay/preemption bounding"},
